@@ -20,18 +20,9 @@ pub assume_specification<T>[ Sender::<T>::send ](s: &Sender<T>, t: T) -> (r: Res
 // ------------------------------------------------------------------ EqualReader
 //@item src/util/equal_reader.rs struct EqualReader
 
-impl<R: Read> EqualReader<R> {
-    pub closed spec fn inner(&self) -> &R { &self.reader }
-    pub closed spec fn remaining(&self) -> usize { self.size }
-}
-
-// stream() of an EqualReader: the first `size` bytes of the inner stream (all of it if shorter)
-impl<R: Read> ReadSpecImpl for EqualReader<R> {
-    open spec fn stream(&self) -> Seq<u8> {
-        if self.inner().stream().len() >= self.remaining() { self.inner().stream().take(self.remaining() as int) } else { self.inner().stream() }
-    }
-    open spec fn failed(&self) -> bool { self.inner().failed() }
-}
+#[verifier::reject_recursive_types(R)]
+//@item src/util/fused_reader.rs struct FusedReader
+//@include contracts/readers_spec.inc
 
 //@impl src/util/equal_reader.rs "EqualReader<R>"
 //@fn new ret r props C03
@@ -78,21 +69,6 @@ impl<R: Read> ReadSpecImpl for EqualReader<R> {
 //@endimpl
 
 // ------------------------------------------------------------------ FusedReader
-#[verifier::reject_recursive_types(R)]
-//@item src/util/fused_reader.rs struct FusedReader
-
-impl<R: Read> FusedReader<R> {
-    pub closed spec fn inner(&self) -> Option<R> { self.inner }
-}
-
-impl<R: Read> ReadSpecImpl for FusedReader<R> {
-    open spec fn stream(&self) -> Seq<u8> {
-        match self.inner() { Some(r) => r.stream(), None => Seq::empty() }
-    }
-    // over-approximation (only ever used as `!failed() ==> ..`): a fused reader has forgotten its source's flag
-    open spec fn failed(&self) -> bool { match self.inner() { Some(r) => r.failed(), None => true } }
-}
-
 //@impl src/util/fused_reader.rs "FusedReader<R>"
 //@fn new ret r props C03
 //@spec
